@@ -32,6 +32,7 @@ type c01RoundPlan struct {
 	pcFrom      map[int][]int  // node -> validators whose precommits it receives (nil = all correct ones)
 	fPrecommit  map[int]string // node -> the faulty validators' precommit towards it
 	staleBefore map[int]bool   // nodes that receive everything held back so far, before the round starts
+	equivocate  map[int]bool   // nodes that receive, at the end of the round, a SECOND proposal (another block) of this round's faulty proposer
 }
 
 type c01Rounds struct {
@@ -305,6 +306,34 @@ func (e *c01Rounds) round(round int32, plan c01RoundPlan) bool {
 			e.fireStep(h, round, cstypes.RoundStepPrecommitWait)
 		}
 	}
+	if isFaulty && len(plan.equivocate) > 0 {
+		if c := shared.candidates(e.r); len(c) > 0 && shared.cs.Height == e.height {
+			k := (int(round) + 1) % 3
+			if k >= len(c) {
+				k = 0
+			}
+			bid := types.BlockID{Hash: c[k].block.Hash(), PartSetHeader: c[k].parts.Header()}
+			if first, ok := e.props[round]; !ok || !first.Equals(bid) {
+				p := types.NewProposal(e.height, round, -1, bid)
+				pp := p.ToProto()
+				e.pvs[proposer].SignProposal(shared.cs.state.ChainID, pp) //nolint:errcheck
+				p.Signature = pp.Signature
+				from := p2p.ID(fmt.Sprintf("p%d", proposer+1))
+				msgs := []msgInfo{{&ProposalMessage{p}, from}}
+				for i := 0; i < int(c[k].parts.Total()); i++ {
+					msgs = append(msgs, msgInfo{&BlockPartMessage{e.height, round, c[k].parts.GetPart(i)}, from})
+				}
+				e.net.pool = append(e.net.pool, msgs...)
+				for _, h := range nodes {
+					if plan.equivocate[h.me] {
+						for _, mi := range msgs {
+							e.deliver(h, mi)
+						}
+					}
+				}
+			}
+		}
+	}
 	return true
 }
 
@@ -363,6 +392,22 @@ func c01Opening(r *vg.Rand, q []int, which int) (faulty int, plans []c01RoundPla
 			late:       map[int]bool{a: true},
 			fPrecommit: map[int]string{}}
 		return f, []c01RoundPlan{p0, p1}, "late-polka"
+	case 1:
+		// "commit without the block, then a conflicting proposal": the faulty proposer of round 0
+		// shows its block X to b and c only; everybody sees the polka and the commit for X, so
+		// a enters the commit step without the block (and without any proposal); then the
+		// proposer sends a second proposal of round 0, for another block, to a.
+		f := q[0]
+		abc := others(f)
+		a, b, c := abc[0], abc[1], abc[2]
+		if r.Bool() {
+			a, b = b, a
+		}
+		p0 := c01RoundPlan{fPropose: "new", noProposal: map[int]bool{a: true},
+			fPrevote:   map[int]string{a: "prop", b: "prop", c: "prop"},
+			fPrecommit: map[int]string{a: "prop", b: "prop", c: "prop"},
+			equivocate: map[int]bool{a: true}}
+		return f, []c01RoundPlan{p0}, "commit-without-block-then-conflicting-proposal"
 	default:
 		// "stale polka after a re-lock": b alone locks X in round 0; a alone locks Y in round 1
 		// (the faulty validator's prevote for Y is kept from b and c); in round 2 X is proposed
